@@ -13,6 +13,7 @@ import (
 	"sort"
 	"strconv"
 	"strings"
+	"sync"
 	"unicode/utf8"
 
 	"github.com/awalterschulze/gominikanren/sexpr"
@@ -245,6 +246,66 @@ func realParse(s string) (o parseObs) {
 	return parseObs{kind: 'A', tree: e}
 }
 
+// parseKey: the observable outcome of one Parse call
+func parseKey(o parseObs) string {
+	switch o.kind {
+	case 'A':
+		str, p := realString(o.tree)
+		if p != "" {
+			return "A!" + p
+		}
+		return "A:" + str
+	case 'P':
+		return "P"
+	}
+	return "E"
+}
+
+// The models treat Parse as a function of its input: no state survives a call and calls do not interfere.  The property
+// quantifies over input strings only, so this is what "for every input" silently relies on; it is checked here by calling
+// Parse on the same inputs again from several goroutines at once (each in its own order) and comparing with the first,
+// sequential outcome.
+func c14FunctionOfInput(rep *Report, inputs []string, cases []int, want []string) {
+	if len(inputs) == 0 {
+		return
+	}
+	const workers = 8
+	begin(cases[0], "concurrent calls of sexpr.Parse on the inputs of this run")
+	type bad struct {
+		i   int
+		got string
+	}
+	var mu sync.Mutex
+	var bads []bad
+	var wg sync.WaitGroup
+	for w := 0; w < workers; w++ {
+		wg.Add(1)
+		go func(w int) {
+			defer wg.Done()
+			n := len(inputs)
+			for round := 0; round < 3; round++ {
+				for j := 0; j < n; j++ {
+					i := (j*(2*w+1) + w*7919 + round) % n
+					got := parseKey(realParse(inputs[i]))
+					if got != want[i] {
+						mu.Lock()
+						if len(bads) < 20 {
+							bads = append(bads, bad{i, got})
+						}
+						mu.Unlock()
+					}
+				}
+			}
+		}(w)
+	}
+	wg.Wait()
+	rep.hist(fmt.Sprintf("function-of-input: %d inputs x %d goroutines x 3 rounds", len(inputs), workers))
+	for _, b := range bads {
+		rep.violate(cases[b.i], "parse-not-a-function-of-input", fmt.Sprintf("%q", inputs[b.i]),
+			fmt.Sprintf("first (sequential) call: %s; a later call concurrent with other Parse calls: %s", want[b.i], b.got))
+	}
+}
+
 func realString(e *ast.SExpr) (s string, panicked string) {
 	defer func() {
 		if r := recover(); r != nil {
@@ -282,8 +343,10 @@ var (
 	rxAny = &rx{kind: '.', key: "."}
 )
 
-func rxRange(lo, hi rune) *rx { return &rx{kind: 'c', lo: lo, hi: hi, key: fmt.Sprintf("[%d-%d]", lo, hi)} }
-func rxChar(c rune) *rx        { return rxRange(c, c) }
+func rxRange(lo, hi rune) *rx {
+	return &rx{kind: 'c', lo: lo, hi: hi, key: fmt.Sprintf("[%d-%d]", lo, hi)}
+}
+func rxChar(c rune) *rx { return rxRange(c, c) }
 func rxCat(xs ...*rx) *rx {
 	r := xs[len(xs)-1]
 	for i := len(xs) - 2; i >= 0; i-- {
@@ -1009,6 +1072,8 @@ func runC14(cfg *Config) *Report {
 	if cfg.Tier == "thorough" {
 		maxLen = 6
 	}
+	var fnInputs, fnWant []string
+	var fnCases []int
 	for i := 0; i < cfg.N; i++ {
 		r := newRand(cfg.Seed*1000003 + int64(i))
 		var s, class string
@@ -1058,7 +1123,13 @@ func runC14(cfg *Config) *Report {
 		if o.obs.kind == 'A' {
 			rep.sample(o.desc + " => " + o.obsString())
 		}
+		if len(s) <= 400 {
+			fnInputs = append(fnInputs, s)
+			fnCases = append(fnCases, i)
+			fnWant = append(fnWant, parseKey(o.obs))
+		}
 	}
+	c14FunctionOfInput(rep, fnInputs, fnCases, fnWant)
 	cf.write(cfg.Out)
 	return rep
 }
